@@ -373,6 +373,14 @@ fn c18_configs(tier: Tier) -> Vec<uring::UCfg> {
         odirect: false,
         letters: vec![A_WRITE0, A_R1_WRITE1, A_R1_READ0, A_SUBMIT0, A_SUBMIT1, A_ADV_FULL, A_DRAIN0, A_DRAIN1, A_CHURN0],
     });
+    // the ring works on a handle opened without write (without read) access: what the
+    // synchronous API refuses on that handle the ring must refuse as well
+    for (name, letters) in [
+        ("read-only-handle", vec![A_WRITE0, A_READ0, A_FSYNC, A_SUBMIT0, A_ADV_FULL, A_DRAIN0, A_DRAIN_ONE0, A_CRASH]),
+        ("write-only-handle", vec![A_WRITE0, A_READ0, A_FSYNC, A_SUBMIT0, A_ADV_FULL, A_DRAIN0, A_DRAIN_ONE0, A_CRASH]),
+    ] {
+        v.push(UCfg { name: name.into(), rings: 1, depth_ring: 4, latency_us: 1000, depth: tier.pick(6, 7), page_cache: false, capacity: None, odirect: false, letters });
+    }
     // O_DIRECT with a page cache configured: every read pays the full latency, hit or not
     v.push(UCfg {
         name: "odirect-with-page-cache".into(),
